@@ -6,6 +6,7 @@ import (
 	"os"
 	"runtime"
 	"sync"
+	"verif/vrt/vos"
 
 	"github.com/Trendyol/go-dcp/couchbase"
 	"github.com/Trendyol/go-dcp/helpers"
@@ -212,6 +213,34 @@ func init() {
 					}
 				}
 			}
+			// stateful-set membership: the member number is the pod ordinal in the host name + 1, the group size
+			// comes from the configuration. Host names with several dashes and two-digit ordinals included.
+			for _, base := range []string{"app", "my-dcp-app", "a-1", "x-"} {
+				for _, n := range []int{16, 64} {
+					for t := 1; t <= 12; t++ {
+						chunks := make([][]uint16, t)
+						for m := t; m >= 1; m-- {
+							host := fmt.Sprintf("%s-%d", base, m-1)
+							vos.HostnameFn = func() (string, error) { return host, nil }
+							var c config.Dcp
+							c.Dcp.Group.Membership.Type = "kubernetesStatefulSet"
+							c.Dcp.Group.Membership.TotalMembers = t
+							c.ApplyDefaults()
+							d := stream.NewVBucketDiscovery(nil, &c, n, EventBus.New())
+							chunks[m-1] = d.Get()
+							res.Evaluations++
+							if mt := d.GetMetric(); mt.MemberNumber != m || mt.TotalMembers != t {
+								res.Violations = append(res.Violations, pureViolation("C09", fmt.Sprintf("stateful-set membership: host %q in a group of %d is member %d/%d, want %d/%d", host, t, mt.MemberNumber, mt.TotalMembers, m, t)))
+							}
+						}
+						res.Distinct++
+						if msg := checkPartition(n, t, chunks); msg != "" && len(res.Violations) < 10 {
+							res.Violations = append(res.Violations, pureViolation("C09", fmt.Sprintf("stateful-set membership (hosts %s-0..%s-%d): VBucketDiscovery.Get %s", base, base, t-1, msg)))
+						}
+					}
+				}
+			}
+			vos.HostnameFn = nil
 			resetGlobals()
 			res.States = res.Evaluations
 			res.Transitions = res.Evaluations
